@@ -255,7 +255,7 @@ def check_c16(tier, seed):
         for name in sorted(set(offered) - set(documented)):
             pass
         priors_all = F.prior_states(tree)
-        prior_names = ["absent", "older", "identical-other-mode", "unrelated", "base-is-file"]
+        prior_names = ["absent", "older", "identical-other-mode", "unrelated", "base-is-file", "base-is-relative-symlink", "base-is-absolute-symlink"]
         if tier != "quick":
             prior_names += ["older-partial", "older-readonly-mode", "skill-dir-has-extra"]
         # custom paths also include ones that merely *look* like an installation (last element named like the skill
@@ -302,7 +302,17 @@ def check_c16(tier, seed):
                         os.makedirs(os.path.join(d, "keep"), exist_ok=True)
                         open(os.path.join(d, "keep", "a.txt"), "w").write("bystander")
                     expect_error = False
-                    if pn == "base-is-file":
+                    skill_alt = None
+                    if pn in ("base-is-relative-symlink", "base-is-absolute-symlink"):
+                        # the base directory is a link into a dotfiles directory elsewhere (stow style): the tree is
+                        # installed through it, the link itself stays
+                        target = os.path.join(sb.other, "dotfiles", "skills")
+                        os.makedirs(target, exist_ok=True)
+                        open(os.path.join(target, "mine.md"), "w").write("kept")
+                        os.makedirs(os.path.dirname(base), exist_ok=True)
+                        os.symlink(os.path.relpath(target, os.path.dirname(base)) if pn == "base-is-relative-symlink" else target, base)
+                        skill_alt = os.path.join(target, "kessoku-di")
+                    elif pn == "base-is-file":
                         os.makedirs(os.path.dirname(base), exist_ok=True)
                         open(base, "w").write("i am a file")
                         expect_error = True
@@ -348,8 +358,11 @@ def check_c16(tier, seed):
                         for rel in sorted(set(a) | set(b)):
                             full = os.path.join(d, rel)
                             inside = (full == skill or full.startswith(skill + os.sep))
+                            via = skill
+                            if not inside and skill_alt and (full == skill_alt or full.startswith(skill_alt + os.sep)):
+                                inside, via = True, skill_alt
                             if inside:
-                                relk = os.path.relpath(full, skill)
+                                relk = os.path.relpath(full, via)
                                 if relk in tree or a.get(rel, ('?',))[0] == 'd':
                                     if rel in b and rel not in a:
                                         viol("%s removed" % rel)
@@ -361,7 +374,7 @@ def check_c16(tier, seed):
                                 if a.get(rel) != b.get(rel):
                                     viol("unrelated file inside the skill directory changed: %s: %s -> %s" % (rel, F.short(b.get(rel)), F.short(a.get(rel))))
                                 continue
-                            is_parent = skill.startswith(full + os.sep)
+                            is_parent = skill.startswith(full + os.sep) or bool(skill_alt and skill_alt.startswith(full + os.sep))
                             if rel not in b:
                                 if is_parent and a[rel][0] == 'd':
                                     continue
